@@ -35,9 +35,9 @@ structure StyleBg where
   images : Nat
   deriving Repr, DecidableEq, Inhabited
 
-/-- `style['visibility'] == 'hidden'` — the test of `layout_box_backgrounds` (every other reader of
-`visibility` in the drawing code tests `!= 'visible'`; `Attrs.visible` is that test). -/
-def StyleBg.hidden (s : StyleBg) : Bool := s.visibility == .hidden
+/-- `style['visibility'] != 'visible'` — the test of `layout_box_backgrounds` (since af29a5d the same test as
+every other reader of `visibility` in the drawing code; `Attrs.visible` is its negation). -/
+def StyleBg.hidden (s : StyleBg) : Bool := s.visibility != .visible
 
 /-- `layout_box_backgrounds`: `box.background`.  A hidden box has no images and a transparent colour;
 a transparent colour without image is `None` — except on the page box ("Pages need a background for
